@@ -23,7 +23,7 @@ import streams  # noqa: E402
 import extract  # noqa: E402
 
 LEAN = os.path.join(VERIF, "lean")
-BUILD = os.path.join(VERIF, ".build")
+BUILD = build.BUILD
 REPO = os.environ.get("VERIF_REPO", "/repo")
 ALLOWED_AXIOMS = {"propext", "Quot.sound", "Classical.choice"}
 FORBIDDEN = re.compile(r"\b(sorry|admit|native_decide|bv_decide|implemented_by|unsafe)\b|^\s*axiom\s|maxHeartbeats\s+0")
@@ -461,6 +461,11 @@ def check(prop, tier, seed):
             reported[sig][3] += 1
             continue
         reported[sig] = [ss, c, d, 1]
+    if os.environ.get("VERIF_SURVEY"):
+        for sig, (ss, c, d, cnt) in sorted(reported.items(), key=lambda kv: -kv[1][3]):
+            log("  SURVEY %-10s %-8s %-70s %5d  e.g. %s" % (sig[0], sig[1], sig[2][:70], cnt, c[0]))
+        if os.environ.get("VERIF_SURVEY") == "only":
+            reported = {}
     for sig, (ss, c, d, cnt) in list(reported.items())[:6]:
         fault = d.get("fault")
         same = (lambda dd, fault=fault: (dd.get("fault") == fault) if fault else ("fault" not in dd))
